@@ -109,3 +109,73 @@ def call_signatures(run, project, rule, modules=(MARSHAL, CONSTRAINTS, "tpmstrea
                        f"`{norm(c)[:90]}`: {'; '.join(problems)} - the call raises TypeError, which is not a documented outcome of decoding",
                        module=m, node=c, func=q, construct=f"call of {name}")
     return n
+
+
+def unbound_locals(run, project, rule, modules, what="internal error"):
+    """A local variable that is read at a place no assignment of it can reach - on no path, through no loop back edge, from
+    no handler - raises UnboundLocalError whenever that place is executed: an internal error, not a documented outcome.
+    Reaching definitions over the function's flow graph (exception edges included); only *must*-unbound reads are reported
+    (a read some path reaches without a binding while another path binds it is not: the analysis is path-insensitive there).
+    Names bound by walrus expressions, `global` / `nonlocal` names and names only bound in nested scopes are left alone."""
+    from ..fnview import FnView
+    n_fn = n_use = 0
+    for mname in modules:
+        m = project.modules.get(mname)
+        if m is None:
+            continue
+        for q, fn in m.functions().items():
+            try:
+                V = FnView(m, fn)
+            except Exception:
+                continue
+            n_fn += 1
+            bound = set()
+            for d in V.rd.defs.values():
+                bound.update(d)
+            skip = set(V.rd.params)
+            for x in walk_no_nested(fn):
+                if isinstance(x, (ast.Global, ast.Nonlocal)):
+                    skip.update(x.names)
+                if isinstance(x, ast.NamedExpr) and isinstance(x.target, ast.Name):
+                    skip.add(x.target.id)
+                if isinstance(x, ast.Delete):
+                    skip.update(t.id for t in x.targets if isinstance(t, ast.Name))
+                if isinstance(x, (ast.Match,) if hasattr(ast, "Match") else ()):
+                    skip.update(bound)
+            local = bound - skip
+            if not local:
+                continue
+            live, stack = set(), [V.cfg.entry]
+            while stack:   # statements after an unconditional return / raise are not executed at all
+                c = stack.pop()
+                if c.id in live:
+                    continue
+                live.add(c.id)
+                stack.extend(s_ for _, s_ in c.succ)
+                if c.kind in ("stmt", "test", "for", "handler"):
+                    stack.extend(V.cfg.handlers_of(c))
+            for node in V.cfg.nodes:
+                if node.kind not in ("stmt", "test", "for") or node.ast is None or node.id not in live:
+                    continue
+                roots = [node.ast.iter] if node.kind == "for" else [node.ast]
+                if node.kind == "stmt" and isinstance(node.ast, (ast.FunctionDef, ast.ClassDef, ast.With, ast.Try, ast.If, ast.While, ast.For)):
+                    # compound statements are split into their own nodes; only their header expressions belong to this node
+                    roots = [it.context_expr for it in node.ast.items] if isinstance(node.ast, ast.With) else []
+                comp_targets = set()
+                for r in roots:
+                    for x in ast.walk(r):
+                        if isinstance(x, ast.comprehension):
+                            comp_targets.update(t.id for t in ast.walk(x.target) if isinstance(t, ast.Name))
+                        if isinstance(x, ast.Lambda):
+                            comp_targets.update(a.arg for a in x.args.args)
+                for r in roots:
+                    for x in ast.walk(r):
+                        if isinstance(x, ast.Name) and isinstance(x.ctx, ast.Load) and x.id in local and x.id not in comp_targets:
+                            n_use += 1
+                            if not V.rd.IN[node.id].get(x.id):
+                                run.ob(rule, False, f"{q}: `{x.id}` is bound where it is read",
+                                       f"`{x.id}` is read in `{norm(node.ast).splitlines()[0][:70]}` but no assignment of it reaches that "
+                                       f"place on any path: executing it raises UnboundLocalError ({what})", module=m, node=x, func=q,
+                                       construct=f"unbound local {x.id}")
+    run.ob(rule, True, f"no read of a local that no assignment reaches ({n_fn} functions, {n_use} reads of locals)")
+    return n_fn, n_use
